@@ -10,7 +10,7 @@
    is what the correspondence stage compares bit for bit with CPython. *)
 From Coq Require Import List ZArith Bool QArith Qcanon.
 From Coq Require Import Reals.
-From RxVerif Require Import Math.Exact Math.ExactProofs Math.FloatModel Math.C12Corr Math.SumErrorProofs Math.SumRunningProofs Math.MeanErrorProofs Math.MinMaxFloatProofs Math.FloatOpsProofs Math.VarianceFloatProofs Math.VarianceNonnegProofs Math.WelfordReal Math.WelfordErrorProofs Math.StddevErrorProofs Math.PySumErrorProofs Math.FormalVarianceErrorProofs Math.MixedItemsProofs.
+From RxVerif Require Import Math.Exact Math.ExactProofs Math.FloatModel Math.C12Corr Math.SumErrorProofs Math.SumRunningProofs Math.MeanErrorProofs Math.MinMaxFloatProofs Math.FloatOpsProofs Math.VarianceFloatProofs Math.VarianceNonnegProofs Math.WelfordReal Math.WelfordErrorProofs Math.StddevErrorProofs Math.PySumErrorProofs Math.FormalVarianceErrorProofs Math.MixedItemsProofs Math.MixedFormalProofs.
 Import ListNotations.
 Open Scope Qc_scope.
 
@@ -460,6 +460,45 @@ Theorem C12_mixed_items_variance_error_bound : forall (h : hints) (l : list num)
 Proof. exact mixed_variance_reduce_error. Qed.
 Print Assumptions C12_mixed_items_variance_error_bound.
 
+(* the two-pass formal.variance / formal.stddev on int items: all-int lists reduce bit for bit to the float runs (so the
+   C12_float_formal bounds transfer); on lists that really mix ints and floats the reduction is FALSE of the faithful
+   model (and of the code: the two witnesses below print 1.25 / 0.75 and 0.75 / 0.25 in CPython too), because builtin
+   sum adds an int exactly before the first float and without compensation after it; the second pass never differs *)
+Theorem C12_mixed_formal_ints : forall (h : hints) (reduce : bool) (zs : list Z), int_prefix_ok 0 (map NI zs) ->
+  fvariance_run (FA h) reduce (map NI zs) = fvariance_run (FA h) reduce (map to_fl (map NI zs))
+  /\ fstddev_run (FA h) reduce (map NI zs) = fstddev_run (FA h) reduce (map to_fl (map NI zs)).
+Proof. exact (fun h r zs H => conj (mixed_fvariance_run_ints h r zs H) (mixed_fstddev_run_ints h r zs H)). Qed.
+Print Assumptions C12_mixed_formal_ints.
+Theorem C12_mixed_formal_second_pass : forall (h : hints) (l : list num),
+  moment1 (FA h) l = moment1 (FA h) (map to_fl l) -> fvar_out (FA h) l = fvar_out (FA h) (map to_fl l).
+Proof. exact mixed_fvar_out_of_mean. Qed.
+Print Assumptions C12_mixed_formal_second_pass.
+Theorem C12_mixed_formal_ints_variance_error_bound : forall (h : hints) (zs : list Z) (lo hi Rr : R),
+  zs <> [] -> int_prefix_ok 0 (map NI zs) -> Forall (fun z => (lo <= IZR z <= hi)%R) zs -> (hi - lo <= Rr)%R ->
+  (Z.of_nat (length zs) < 2 ^ 53)%Z -> fvar_fin h (map f_of_Z zs) = true ->
+  exists f, fvariance_run (FA h) true (map NI zs) = [NF f] /\ ffin f /\
+    (Rabs (FR f - popvarR (map IZR zs)) <= fvar_bound Rr (map IZR zs))%R.
+Proof. exact mixed_fvariance_ints_error. Qed.
+Print Assumptions C12_mixed_formal_ints_variance_error_bound.
+Theorem C12_mixed_formal_ints_stddev_error_bound : forall (h : hints) (zs : list Z) (lo hi Rr : R),
+  zs <> [] -> int_prefix_ok 0 (map NI zs) -> Forall (fun z => (lo <= IZR z <= hi)%R) zs -> (hi - lo <= Rr)%R ->
+  (Z.of_nat (length zs) < 2 ^ 53)%Z -> fstd_fin h (map f_of_Z zs) = true ->
+  exists g, fstddev_run (FA h) true (map NI zs) = [NF g] /\ ffin g /\ (0 <= FR g)%R /\
+    (Rabs (FR g - rsqrt (popvarR (map IZR zs)))
+     <= rsqrt (fvar_bound Rr (map IZR zs)) * (1 + u53) + u53 * rsqrt (popvarR (map IZR zs)))%R.
+Proof. exact mixed_fstddev_ints_error. Qed.
+Print Assumptions C12_mixed_formal_ints_stddev_error_bound.
+Theorem C12_mixed_formal_reduction_refuted :
+  (Forall small_num witness_after /\
+   fvariance_run (FA []) true witness_after <> fvariance_run (FA []) true (map to_fl witness_after))
+  /\ (Forall small_num witness_before /\
+   fvariance_run (FA []) true witness_before <> fvariance_run (FA []) true (map to_fl witness_before)).
+Proof.
+  exact (conj (conj witness_after_small mixed_formal_refuted_int_after_float)
+              (conj witness_before_small mixed_formal_refuted_int_before_float)).
+Qed.
+Print Assumptions C12_mixed_formal_reduction_refuted.
+
 Theorem C12_float_unit_roundoff : u53 = (/ 2 ^ 53)%R.
 Proof. exact u53_value. Qed.
 Print Assumptions C12_float_unit_roundoff.
@@ -475,9 +514,12 @@ Print Assumptions C12_float_unit_roundoff.
    and for the two-pass formal.variance / formal.stddev, CPython's compensated builtin sum included
    (C12_float_builtin_sum_error_bound and the C12_float_formal theorems).
    Int items mixed with floats reduce bit for bit to the float runs for sum, mean, min, max, variance and stddev (the
-   C12_mixed_items theorems).  NOT PROVED: the two-pass formal.variance on lists that mix ints and floats (CPython's builtin
-   sum treats an int item after the first float differently from a float item); there the binary64 half is tied bit-exactly
-   to the code and its error is measured against exact rationals by the oracle.  The bounds are a-priori bounds in terms of
+   C12_mixed_items theorems).  The two-pass formal.variance / formal.stddev on all-int lists reduce the same way
+   (C12_mixed_formal_ints, with the error bounds transferred).  NOT PROVED: an error bound for the two-pass formal.variance on
+   lists that really mix ints and floats (CPython's builtin sum treats an int item after the first float differently from a
+   float item, so the reduction to the float run is false there: C12_mixed_formal_reduction_refuted, two witnesses evaluated
+   in the model and replayed on the code; only the first pass can differ: C12_mixed_formal_second_pass); there the binary64
+   half is tied bit-exactly to the code and its error is measured against exact rationals by the oracle.  The bounds are a-priori bounds in terms of
    u, n, the range and the magnitude of the data (the conditioning), not the sharpest known constants. *)
 Theorem C12_partial : forall (sq : Qc -> Qc) (xs : list Qc),
   sum_run (QA sq) true xs = [qsum xs]
